@@ -7,3 +7,9 @@ pub use ordering_sender::OrderingSender;
 pub use unordered_receiver::{
     DeserializeError, EndOfStreamError, Error as UnorderedReceiverError, UnorderedReceiver,
 };
+
+#[cfg(all(test, feature = "ipa-verif"))]
+#[allow(dead_code, unused_imports, clippy::all, clippy::pedantic)]
+mod ipa_verif_hook {
+    include!(concat!(env!("IPA_VERIF_DIR"), "/hooks/buffers.rs"));
+}
